@@ -3,7 +3,7 @@
 From Coq Require Import List QArith ZArith Bool Lia.
 From PyrexLib Require Import Interp.
 From PyrexModel Require Import AntennaModel AntennaSpec.
-From PyrexProofs Require Import C09_struct C09_sum C09_sys.
+From PyrexProofs Require Import C09_struct C09_sum C09_sys C09_sysm.
 Import ListNotations.
 Open Scope Q_scope.
 
@@ -55,6 +55,33 @@ Proof.
   rewrite fresh_answer_pure in H by auto. unfold step, pure_answer in H.
   destruct (all_waveforms c (final c a_init h)) as [st' l]. cbn [snd] in *.
   inversion H; subst l. apply all_pure_are_sums. exact Hw.
+Qed.
+
+(* antenna system: every entry of all_waveforms is the (linear) front end applied to the sum of
+   ALL received signals on its grid *)
+Lemma s_all_pure_are_sums : forall sc sigs l,
+  noisy (ant_cfg sc) = false ->
+  Forall (fun s => wf_window (s_times s)) l ->
+  Forall2 sig_eq (map (fun s => s_fw_pure sc sigs (s_times s)) l)
+    (map (fun s => mkSig (s_times s) (map (fun t => sum_at sigs t * fe_scale sc) (s_times s))) l).
+Proof.
+  intros sc sigs l Hn Hw. induction Hw as [|s l Hs Hw IH]; simpl; constructor; auto.
+  destruct (sys_full_waveform_is_sum_lemma sc (s_fresh sigs) (s_times s) Hn Hs) as (_ & E).
+  rewrite s_fw_noiseless in E by exact Hn. exact E.
+Qed.
+
+Lemma sys_all_waveforms_are_sums_lemma : forall sc h,
+  noisy (ant_cfg sc) = false -> invalidate (ant_cfg sc) = true ->
+  Forall (fun s => wf_window (s_times s)) (received h) ->
+  Forall2 sig_eq (snd (s_all_waveforms sc (s_final sc s_init h)))
+    (map (fun s => mkSig (s_times s) (map (fun t => sum_at (received h) t * fe_scale sc) (s_times s)))
+         (received h)).
+Proof.
+  intros sc h Hn Hi Hw.
+  destruct (s_final_spec sc h s_init Hn Hi (SysInv_init sc)) as (I & S).
+  destruct (s_all_waveforms_spec sc _ Hn Hi I) as (A1 & _).
+  rewrite A1, S. fold (received h). unfold s_all_pure.
+  apply s_all_pure_are_sums; assumption.
 Qed.
 
 (* the original code (incremental catch-up without invalidation): the cached first waveform
